@@ -141,7 +141,7 @@ PROPERTIES = {
  'C14': dict(
     level='exploration', exhaustive_claim=True,
     rule='exhaustive: every day of years -10000..+20000 for 7 precisions (+ 32-bit representations), every second of 12 selected days; generated min/max neighbourhoods, calendar boundaries and random 64-bit counts for time points and durations, CRawTime/CTimeRef, MsgPack timestamp passage; oracle = ref_calendar (Rata-Die in __int128, self-tested against glibc gmtime_r)',
-    assumptions=TRUSTED + ['ref_calendar.h; glibc gmtime_r for its self-test', 'recorded findings KF-27 (first day of a 64-bit range cannot be parsed back) and KF-33 (day-precision 64-bit time points within 1970 years of max(): int64 overflow in the printer) are excluded by construction and witnessed separately'],
+    assumptions=TRUSTED + ['ref_calendar.h; glibc gmtime_r for its self-test', 'recorded findings KF-27 (first day of a 64-bit range cannot be parsed back) and KF-33 (the same for the last 400-year era of the day-precision range) are excluded by construction and witnessed separately'],
     units=[U('c14_sweep', 'c14_chrono_text.cpp', flavour='opt', libs=['-lpugixml'], args=['--only-sweeps'],
              quick=dict(shards=16, min_eval=30000000), thorough=dict(shards=16, min_eval=30000000)),
            U('c14_pbt', 'c14_chrono_text.cpp', flavour='asan', libs=['-lpugixml'], args=['--no-sweeps', '--skip-prefix', 'kf'],
